@@ -1723,6 +1723,8 @@ def tags(case, obs):
         t.append("probe:" + case["tmpl"])
         if "act" in case:
             t.extend(act_tags(case["act"]))
+            if sum(1 for e in obs.get("out", []) if e[0] == "Done") < len(case["act"]["calls"]):
+                t.append("act:caller-blocked(positional-served-by-named)")
     return t
 
 
@@ -1781,6 +1783,25 @@ def shrink(case):
                 yield dict(case, params=case["params"][:i] + [dict(p, default=None)] + case["params"][i + 1:])
         if case["rets"]:
             yield dict(case, rets=[])
+    elif case["kind"] == "probe" and "act" in case:
+        a = case["act"]
+        nc = len(a["calls"])
+        if a["split"] < nc:
+            yield mk_act(dict(a, split=nc))
+        for i in range(nc):
+            if nc > 1:
+                yield mk_act(dict(a, calls=a["calls"][:i] + a["calls"][i + 1:], split=(a["split"] - 1 if i < a["split"] else a["split"]) if a["split"] < nc else nc - 1))
+        if a["pings"]:
+            yield mk_act(dict(a, pings=0, variant="hold"))
+        if len(a["flows"]) > 1:
+            for f in a["flows"]:
+                if all(c["flow"] != f["name"] for c in a["calls"]):
+                    yield mk_act(dict(a, flows=[g for g in a["flows"] if g is not f]))
+        for k, v in a["mvars"]:   # a variable argument -> the literal
+            def sub(e):
+                return {"lit": v} if e.get("var") == k else e
+            yield mk_act(dict(a, mvars=[kv for kv in a["mvars"] if kv[0] != k],
+                              calls=[dict(c, pos=[sub(e) for e in c["pos"]], named=[[n_, sub(e)] for n_, e in c["named"]]) for c in a["calls"]]))
     elif case["kind"] == "e2e":
         p = case["prog"]
         for i in range(len(p["main"]) - 1):
